@@ -4,6 +4,7 @@ Standard library only.  Nothing here (or anywhere in pytough_sa) imports or
 executes a PyTOUGH module; sources are parsed with ``ast`` on every run.
 """
 import ast
+import warnings
 import hashlib
 import json
 import os
@@ -63,6 +64,34 @@ def digest(text):
 # --------------------------------------------------------------------------
 # program model
 
+def srcline(n):
+    """line of the node in the repository source (the tree itself is renumbered, see renumber())"""
+    return getattr(n, '_srcline', getattr(n, 'lineno', 0))
+
+
+def renumber(tree):
+    """After normalisation a function may contain statements spliced in from a helper (N8) or copied by unrolling (N10): their
+    original line numbers say nothing about where they now execute.  Rules compare positions through lineno / end_lineno, so
+    every positioned node gets lineno = its pre-order index in the normalised tree and end_lineno = the largest index in its
+    subtree (containment and order are exact); the source line is kept in _srcline for reports."""
+    counter = [0]
+    def go(n):
+        has = hasattr(n, 'lineno')
+        if has:
+            if not hasattr(n, '_srcline'): n._srcline = n.lineno
+            counter[0] += 1
+            n.lineno = counter[0]; n.col_offset = 0
+        for c in ast.iter_child_nodes(n): go(c)
+        if has:
+            n.end_lineno = counter[0]; n.end_col_offset = 0
+    import sys
+    lim = sys.getrecursionlimit()
+    sys.setrecursionlimit(max(lim, 10000))
+    try: go(tree)
+    finally: sys.setrecursionlimit(lim)
+    return tree
+
+
 class FuncInfo(object):
     def __init__(self, module, cls, name, node, parent=None):
         self.module, self.cls, self.name, self.node = module, cls, name, node
@@ -79,7 +108,7 @@ class FuncInfo(object):
 
     def where(self, node=None):
         n = node if node is not None else self.node
-        return '%s:%d (%s)' % (self.file, getattr(n, 'lineno', 0), self.short)
+        return '%s:%d (%s)' % (self.file, srcline(n), self.short)
 
     @property
     def params(self):
@@ -142,6 +171,58 @@ class ClassInfo(object):
         return out
 
 
+_NORM_KEY = [None]
+
+
+def _normalised_tree(name, src, path, sha, store=True):
+    """parse + normalise + renumber one module.  The result only depends on the module text, on the library-wide method /
+    property names (N13) and on the analyser itself, so it is kept in a pickle under <verif>/.cache (git-ignored, rebuilt
+    whenever it is missing or any of the three changed); a replay on a scratch copy with one patched module re-normalises
+    that module only."""
+    import pickle
+    from . import normalise as nz
+    if _NORM_KEY[0] is None:
+        h = hashlib.sha1()
+        here = os.path.dirname(os.path.abspath(__file__))
+        for f in ('normalise.py', 'core.py'):
+            with open(os.path.join(here, f), 'rb') as fh: h.update(fh.read())
+        h.update(repr((sorted(nz.LIBRARY_METHODS), sorted(nz.LIBRARY_PROPERTIES), sys.version_info[:2])).encode())
+        try:
+            with open(os.path.join(os.path.dirname(here), 'vocab.json'), 'rb') as fh:
+                h.update(json.dumps(json.load(fh).get('_nested_baseline', {}), sort_keys=True).encode())
+        except (IOError, ValueError): pass
+        _NORM_KEY[0] = h.hexdigest()[:16]
+    cdir = os.path.join(os.path.dirname(os.path.dirname(os.path.abspath(__file__))), '.cache')
+    cfile = os.path.join(cdir, 'norm_%s_%s_%s.pkl' % (name, sha[:16], _NORM_KEY[0]))
+    lim = sys.getrecursionlimit()
+    sys.setrecursionlimit(max(lim, 20000))
+    try:
+        if os.environ.get('PYTOUGH_SA_NOCACHE') != '1':
+            try:
+                with open(cfile, 'rb') as fh: return pickle.load(fh)
+            except Exception: pass
+        with warnings.catch_warnings():
+            warnings.simplefilter('ignore')
+            tree = ast.parse(src, path)
+        tree = nz.normalise(tree, name)
+        renumber(tree)
+        if store and os.environ.get('PYTOUGH_SA_NOCACHE') != '1':      # (scratch copies read the cache but never add to it)
+            try:
+                os.makedirs(cdir, exist_ok=True)
+                tmp = cfile + '.%d.tmp' % os.getpid()
+                with open(tmp, 'wb') as fh: pickle.dump(tree, fh, protocol=pickle.HIGHEST_PROTOCOL)
+                os.replace(tmp, cfile)
+                # keep the directory small: drop entries of other analyser versions
+                for f in os.listdir(cdir):
+                    if f.startswith('norm_') and not f.endswith('_%s.pkl' % _NORM_KEY[0]) and not f.endswith('.tmp'):
+                        try: os.remove(os.path.join(cdir, f))
+                        except OSError: pass
+            except Exception: pass
+        return tree
+    finally:
+        sys.setrecursionlimit(lim)
+
+
 class ModuleInfo(object):
     def __init__(self, name, root):
         self.name = name
@@ -151,12 +232,7 @@ class ModuleInfo(object):
             raw = f.read()
         self.src = raw.decode('utf-8', 'replace')
         self.sha = hashlib.sha1(raw).hexdigest()
-        import warnings
-        with warnings.catch_warnings():
-            warnings.simplefilter('ignore')
-            self.tree = ast.parse(self.src, self.path)
-        from .normalise import normalise
-        self.tree = normalise(self.tree, name)
+        self.tree = _normalised_tree(name, self.src, self.path, self.sha, store=os.path.abspath(root) == os.path.abspath(REPO))
         self.nlines = self.src.count('\n') + 1
         self.classes, self.functions, self.globals = {}, {}, {}
         self.star_imports, self.imports = [], {}
@@ -199,10 +275,25 @@ class Program(object):
         self.mods = {}
         self.consulted = {}        # rule -> quals of the functions fetched while it ran (vocabulary guard)
         self.current_rule = None
+        # methods and properties of every class of the library (normalisation N13 needs them for all modules at once: a chain like
+        # self.grid.num_blocks in t2data ends in a property of t2grids)
+        from . import normalise as _nz
+        meths, props = set(), set()
         for name in MODULES:
             p = os.path.join(self.root, name + '.py')
             if not os.path.exists(p):
                 raise AnalysisError('module %s.py not found under %s' % (name, self.root))
+            try:
+                with warnings.catch_warnings():
+                    warnings.simplefilter('ignore')
+                    with open(p, encoding='utf-8', errors='replace') as f: t = ast.parse(f.read())
+                m_, p_ = _nz._module_attr_kinds(t)
+                meths |= m_; props |= p_
+            except SyntaxError as e:
+                raise AnalysisError('module %s does not parse: %s' % (name, e))
+        _nz.LIBRARY_METHODS, _nz.LIBRARY_PROPERTIES = meths, props
+        for name in MODULES:
+            p = os.path.join(self.root, name + '.py')
             try:
                 self.mods[name] = ModuleInfo(name, self.root)
             except SyntaxError as e:
